@@ -452,7 +452,7 @@ fn main() {
     let mon = Monitor::new("C20", "exploration");
     mon.set_rule("case = one run: N real nodes, 4..40 concurrent find_node/put/get/ping/closest per node, seeded delivery jitter and yields, peers silenced at seeded virtual instants, stop() at a seeded instant; non-trivial when >=2 concurrent ops; distinct by (hash of the frame sequence, stop phase)");
     mon.assume("bounds in virtual time from the code's constants: lookup 20*(dial+request), put/get + one request, stop (peers+1)*request, each x1.5; real-time lane judges only 30x the bound");
-    let per_shard = mon.by_tier(200u64, 900);
+    let per_shard = mon.by_tier(500u64, 900);
     vkit::run_shards(mon.shards(), mon.seed, |_i, mut rng| {
         for k in 0..per_shard {
             if mon.spent(0.85) {
